@@ -13,7 +13,7 @@ R24e  the strength comparison keeps the incumbent on ties (`writer <= owner` is 
 """
 from vplib import expr as E
 from vplib.facts import path_endswith
-from rules.common import FnCtx, cmp_norm, adder, closure_bodies_in
+from rules.common import FnCtx, cmp_norm, adder, closure_bodies_in, variant_value
 
 TECHNIQUE = "MIR ordering rule (mutation before decision), guard-free path search for the ownership drops, sibling release sites"
 ASSUMPTIONS = ["ownership strength of a writer is the value announced in its PublicationBuiltinTopicData"]
@@ -101,6 +101,23 @@ def run(ctx, rep):
     rel2 = [(bb, t) for bb, t in df.calls("Vec::retain", "Vec::remove") if t.args and field_of(df.arg(t, 0)) == "instance_ownership"]
     adder(rep, d)("R24c", "a missed requested deadline releases the instance ownership", bool(rel2), "instance_ownership is not touched when a deadline is missed")
     rep.floor("R24a", len(fc.calls("InstanceState::update_state")), 4, "update_state calls in add_reader_change")
+    # R24g: once a dispose / unregister has released the instance, the same call does not record an owner again
+    alive_idx = {variant_value(fx, "ChangeKind", "Alive"), variant_value(fx, "ChangeKind", "AliveFiltered")}
+    pushes = [bb for bb, t in fc.calls("Vec::push") if t.args and field_of(fc.arg(t, 0)) == "instance_ownership"]
+
+    def alive_edge(e, outcome, ce):
+        return e[0] == "discr" and E.strip_casts(e[1])[0] == "param" and not E.strip_casts(e[1])[2] and "ChangeKind" in fc.mir.locals[E.strip_casts(e[1])[1]] and outcome in alive_idx
+    for rb, t in rel:
+        late = [p for p in pushes if p in fc.mir.reachable(rb)]
+        found = fc.reach_avoiding(late, alive_edge, start=rb, const_bools=True) if late else {}
+        add("R24g", "after a dispose / unregister released the instance, no owner is recorded again in the same call", not found,
+            "an InstanceOwnership record is pushed after the release without testing that the change is alive: the writer that gave the instance up stays its owner; witness %s" % dict(found), t.line)
+    # R24f: an accepted sample makes its writer the recorded owner, also when an owner was already recorded (takeover)
+    ow = fc.field_writes("InstanceOwnership", "owner_handle")
+    okw = any(E.mentions_field(fc.rv_expr(s), "writer_guid") for bb, i, s in ow)
+    newrec = [(bb, s) for bb, i, s in fc.aggregates("InstanceOwnership")]
+    add("R24f", "the ownership record of an instance is updated to the writer of an accepted sample (takeover by a stronger writer)", okw and bool(newrec),
+        "owner_handle of an existing ownership record is never overwritten: after a stronger writer took the instance over, the record still names the weaker one, whose samples are accepted again")
 
 
 def closure_texts(fx, fc, e):
